@@ -290,7 +290,10 @@ func (c *context) SendMsg(m *protocol.Message) error {
 	// It is responsible for providing the blocking semantic and
 	// ultimately back-pressure.  Note that we will "continue" if
 	// sending is canceled by a subsequent send.
-	for c.sendMsg == m && !expired && !c.closed && !(c.failNoPeers && len(s.pipes) == 0) {
+	// (If the request is canceled while still waiting for a pipe, e.g. by
+	// the receive timer of a Recv on this context, it is no longer queued
+	// and nothing will ever schedule it: stop waiting then, too.)
+	for c.sendMsg == m && c.queued && !expired && !c.closed && !(c.failNoPeers && len(s.pipes) == 0) {
 		c.cond.Wait()
 	}
 	if c.sendMsg == m {
@@ -303,7 +306,10 @@ func (c *context) SendMsg(m *protocol.Message) error {
 		if c.failNoPeers && len(s.pipes) == 0 {
 			return protocol.ErrNoPeers
 		}
-		return protocol.ErrSendTimeout
+		if expired {
+			return protocol.ErrSendTimeout
+		}
+		return protocol.ErrCanceled
 	}
 	return nil
 }
